@@ -25,6 +25,12 @@ ZeroIff(r, zs) == /\ (r.neginf = 1) <=> AllZero(zs)
 Approx(r, exact, zs) ==
     IF NonZero(zs) <= 1 THEN Tight(r.v, exact) ELSE Within(r.v, exact, Len(zs))
 
+\* calls = <<k, y, i>>: k = grid position of the abscissa x handed to the density, i = the index
+\* handed to it.  Every grid point is announced with its own position; the right boundary may be
+\* announced as n - 1 or as n (the helper says n, its documentation does not fix it).
+AnnouncedOK(calls, n) ==
+    \A j \in 1..Len(calls) : calls[j][3] = calls[j][1] \/ (calls[j][1] = n - 1 /\ calls[j][3] = n)
+
 ExplainsOp(c, r) ==
     CASE c.op = "add" ->
            /\ Len(c.a.xs) = 2 /\ Shape(c.a) /\ Clean(r)
@@ -54,8 +60,21 @@ ExplainsOp(c, r) ==
       [] c.op \in {"trapz", "simpson"} ->
            /\ Clean(r) /\ c.a.n >= 2
            /\ Covers(r.calls, c.a.n)
+           /\ AnnouncedOK(r.calls, c.a.n)
            /\ LET ys == SamplesOf(r.calls, c.a.n)
               IN  Within(r.v, IF c.op = "trapz" THEN Trapz(ys) ELSE Simpson(ys), c.a.n)
+      \* index-driven densities: the closure returns table[i] for the ANNOUNCED index i, so the
+      \* integral is right only if every grid point is announced with its own position
+      [] c.op \in {"trapz_idx", "simpson_idx"} ->
+           /\ Clean(r) /\ c.a.n >= 2 /\ Len(c.a.table) = c.a.n
+           /\ Covers(r.calls, c.a.n)
+           /\ AnnouncedOK(r.calls, c.a.n)
+           /\ Within(r.v, IF c.op = "trapz_idx" THEN Trapz(c.a.table) ELSE Simpson(c.a.table), c.a.n)
+      [] c.op = "grid_idx" ->
+           /\ Clean(r) /\ Len(c.a.gs) >= 2 /\ Len(c.a.table) = Len(c.a.gs)
+           /\ \A i \in 1..Len(r.calls) : r.calls[i][1] = r.calls[i][3] /\ r.calls[i][1] \in 0..(Len(c.a.gs) - 1)
+           /\ \A kk \in 0..(Len(c.a.gs) - 1) : \E i \in 1..Len(r.calls) : r.calls[i][1] = kk
+           /\ Within(r.v, GridTrapz(c.a.table, c.a.gs), Len(c.a.gs))
       [] c.op = "grid" ->
            /\ Clean(r) /\ Len(c.a.gs) >= 2
            /\ Covers(r.calls, Len(c.a.gs))
@@ -68,6 +87,19 @@ ExplainsOp(c, r) ==
            /\ r.nan = 0 /\ r.inf = 0
            /\ r.v >= c.a.x - (c.a.x \div 200) - 2 /\ r.v <= c.a.x + (c.a.x \div 200) + 2
       \* ---- closed-form families (10^5 .. 10^6 operands; see ProbAlgebra.tla)
+      [] c.op = "hugesum" ->          \* classes <<xm, xe, mult>>, up to 10^7 elements
+           /\ Clean(r) /\ r.neginf = 0
+           /\ ScaledOK(c.a.cl)
+           /\ c.a.n = ScaledCount(c.a.cl, 1, 0) + 1 /\ c.a.pos \in 1..c.a.n
+           /\ Within(r.v, Unit + ScaledTotal(c.a.cl, 1, 0), 2 * Len(c.a.cl) + 1)
+      [] c.op = "hugecumsum" ->
+           /\ ScaledOK(c.a.cl)
+           /\ c.a.n = ScaledCount(c.a.cl, 1, 0) + 1 /\ c.a.pos \in 1..c.a.n
+           /\ Len(r.vs) = Len(c.a.at)
+           /\ \A i \in 1..Len(c.a.at) :
+                 /\ c.a.at[i] \in 1..c.a.n
+                 /\ Clean(r.vs[i])
+                 /\ Within(r.vs[i].v, ScaledPrefixClosed(c.a.cl, c.a.pos, c.a.at[i]), 2 * Len(c.a.cl) + 1)
       [] c.op = "bigsum" ->
            /\ Clean(r) /\ r.neginf = 0
            /\ c.a.n = ClassCount(c.a.cl, 1, 0) + 1 /\ c.a.pos \in 1..c.a.n
